@@ -116,7 +116,9 @@ def run_shard(job):
             break
         run_seed = derive(seed, prop, i)
         try:
-            case = mod.generate(run_seed, tier)
+            # the case is what its JSON says: executing the round-tripped value makes a replay file exactly equivalent and
+            # gives every occurrence of a name its own str object (as data loaded from files has), not one shared object
+            case = json.loads(json.dumps(mod.generate(run_seed, tier)))
             res = execute_guarded(mod, case)
         except Exception as ex:  # harness failure: never a verdict
             out["harness_errors"].append({"index": i, "error": repr(ex), "tb": traceback.format_exc()[-1500:]})
@@ -173,7 +175,7 @@ def run_replay(job):
         want = sig_key(rep["violation"]["sig"])
         res = None
         for i in range(h["shard"], rep["run_index"] + 1, h["nshards"]):
-            case = mod.generate(derive(h["seed"], rep["property"], i), h["tier"])
+            case = json.loads(json.dumps(mod.generate(derive(h["seed"], rep["property"], i), h["tier"])))
             res = execute_guarded(mod, case)
         got = [v for v in (res["violations"] if res else []) if sig_key(v["sig"]) == want]
         return {"reproduced": bool(got), "same_message": bool(got), "same_digest": True, "violations": res["violations"] if res else [], "digest": res.get("digest") if res else None,
